@@ -1,0 +1,264 @@
+//go:build verif
+
+// Contracts for the attribute cache (cache.go): C21. Comment-only file.
+// container/list is used under the rank view declared in /verif/specs/stdlib.spec (lmem, lrank, llen).
+package absnfs
+
+//@ specdef elemPath(e *list.Element) string = unboxed(e.Value, string)
+//@ specdef acShape(c *AttrCache) bool = c != nil && c.cache != nil && c.accessList != nil && c.maxSize > 0
+// every cached path has its own list element carrying that path
+//@ specdef acFwd(c *AttrCache) bool = forall(p, string, has(c.cache, p) ==> allocated(c.cache[p]) && allocated(c.cache[p].listElement) && lmem[c.accessList][c.cache[p].listElement] && typeof(c.cache[p].listElement.Value) == typeid(string) && elemPath(c.cache[p].listElement) == p, c.cache[p])
+// every list element belongs to the cached path it carries
+//@ specdef acBack(c *AttrCache) bool = forall(e, *list.Element, lmem[c.accessList][e] ==> allocated(e) && typeof(e.Value) == typeid(string) && has(c.cache, elemPath(e)) && c.cache[elemPath(e)].listElement == e, lmem[c.accessList][e])
+//@ specdef acCount(c *AttrCache) bool = llen[c.accessList] == len(c.cache)
+//@ specdef acNeg(c *AttrCache) bool = forall(p, string, has(c.cache, p) ==> (c.cache[p].isNegative <==> c.cache[p].attrs == nil) && (c.cache[p].attrs != nil ==> allocated(c.cache[p].attrs)), c.cache[p])
+//@ specdef acInv(c *AttrCache) bool = acShape(c) && acFwd(c) && acBack(c) && acCount(c) && acNeg(c) && len(c.cache) <= c.maxSize
+// recency rank of a cached path
+//@ specdef acRank(c *AttrCache, p string) mathint = lrank[c.accessList][c.cache[p].listElement]
+
+//@ func NewAttrCache
+//@ prop C21 C24
+//@ ensures [nonnil] result != nil && fresh(result)
+//@ ensures [inv] acInv(result) && len(result.cache) == 0 && !result.enableNegative && result.ttl == ttl && result.maxSize == ite(maxSize <= 0, 10000, maxSize)
+
+//@ func AttrCache.updateAccessLog
+//@ prop C21
+//@ requires acShape(c) && (has(c.cache, path) ==> c.cache[path] != nil)
+//@ modifies lmem, lrank, llen, CachedAttrs.listElement
+// present with an element: it becomes the most recent; present without: a fresh element carrying path is pushed
+//@ ensures [absent-noop] !has(c.cache, path) ==> lmem == old(lmem) && lrank == old(lrank) && llen == old(llen) && forall(x, *CachedAttrs, x.listElement == old(x.listElement), x.listElement)
+//@ ensures [moved] has(c.cache, path) && old(c.cache[path].listElement) != nil ==> lmem == old(lmem) && llen == old(llen) && forall(x, *CachedAttrs, x.listElement == old(x.listElement), x.listElement) && forall(e, mathint, e != c.cache[path].listElement ==> lrank[c.accessList][e] == old(lrank[c.accessList][e])) && (lmem[c.accessList][c.cache[path].listElement] ==> forall(e, mathint, lmem[c.accessList][e] && e != c.cache[path].listElement ==> lrank[c.accessList][c.cache[path].listElement] > lrank[c.accessList][e]))
+//@ ensures [pushed] has(c.cache, path) && old(c.cache[path].listElement) == nil ==> c.cache[path].listElement != nil && fresh(c.cache[path].listElement) && allocated(c.cache[path].listElement) && lmem[c.accessList][c.cache[path].listElement] && typeof(c.cache[path].listElement.Value) == typeid(string) && elemPath(c.cache[path].listElement) == path && llen[c.accessList] == old(llen[c.accessList]) + 1 && forall(e, mathint, e != c.cache[path].listElement ==> lmem[c.accessList][e] == old(lmem[c.accessList][e]) && lrank[c.accessList][e] == old(lrank[c.accessList][e])) && forall(e, mathint, old(lmem[c.accessList][e]) ==> lrank[c.accessList][c.cache[path].listElement] > lrank[c.accessList][e]) && forall(x, *CachedAttrs, x != c.cache[path] ==> x.listElement == old(x.listElement), x.listElement)
+//@ ensures [other-lists] listFrame(c.accessList)
+
+//@ func AttrCache.removeFromAccessLog
+//@ prop C21
+//@ requires acShape(c) && (has(c.cache, path) ==> c.cache[path] != nil)
+//@ modifies lmem, llen, CachedAttrs.listElement
+//@ ensures [noop] !has(c.cache, path) || old(c.cache[path].listElement) == nil ==> lmem == old(lmem) && llen == old(llen) && forall(x, *CachedAttrs, x.listElement == old(x.listElement), x.listElement)
+//@ ensures [removed] has(c.cache, path) && old(c.cache[path].listElement) != nil ==> c.cache[path].listElement == nil && !lmem[c.accessList][old(c.cache[path].listElement)] && forall(e, mathint, e != old(c.cache[path].listElement) ==> lmem[c.accessList][e] == old(lmem[c.accessList][e])) && llen[c.accessList] == old(llen[c.accessList]) - ite(old(lmem[c.accessList][c.cache[path].listElement]), 1, 0) && forall(x, *CachedAttrs, x != c.cache[path] ==> x.listElement == old(x.listElement), x.listElement)
+//@ ensures [other-lists] listFrame2(c.accessList)
+
+//@ func AttrCache.Invalidate
+//@ prop C21 C02
+//@ requires acInv(c)
+//@ modifies mapof(c.cache), lmem, llen, CachedAttrs.listElement, locks
+//@ ensures [gone] !has(c.cache, path) && forall(q, string, q != path ==> has(c.cache, q) == old(has(c.cache, q)) && c.cache[q] == old(c.cache[q]))
+//@ ensures [inv-shape] acShape(c)
+//@ ensures [inv-fwd] acFwd(c)
+//@ ensures [inv-back] acBack(c)
+//@ ensures [inv-count] acCount(c)
+//@ ensures [inv-neg] acNeg(c) && len(c.cache) <= c.maxSize
+//@ ensures [unlocked] held(c.mu) == 0
+
+// the stored attributes are a COPY of the caller's (copy isolation) with the same visible fields
+//@ specdef attrsEq(a *NFSAttrs, b *NFSAttrs) bool = a.Mode == b.Mode && a.Size == b.Size && a.FileId == b.FileId && a.Uid == b.Uid && a.Gid == b.Gid && a.mtime == b.mtime && a.atime == b.atime
+
+//@ func AttrCache.Put
+//@ prop C21
+//@ requires acInv(c) && attrs != nil
+//@ modifies mapof(c.cache), lmem, lrank, llen, CachedAttrs.listElement, clock, locks
+//@ ensures [stored] has(c.cache, path) && c.cache[path] != nil && !c.cache[path].isNegative && c.cache[path].attrs != nil && c.cache[path].attrs != attrs && fresh(c.cache[path].attrs) && attrsEq(c.cache[path].attrs, attrs)
+//@ ensures [expiry] tsec(c.cache[path].expireAt) == clock + real(c.ttl) / 1000000000.0 && clock >= old(clock)
+//@ ensures [inv-shape] acShape(c) && c.accessList == old(c.accessList) && c.cache == old(c.cache)
+// helper steps (kept as postconditions: each is proved, then available to the next)
+//@ ensures [h-existing] old(has(c.cache, path)) ==> c.cache[path].listElement == old(c.cache[path].listElement) && lmem == old(lmem) && llen == old(llen) && len(c.cache) == old(len(c.cache))
+//@ ensures [h-new] !old(has(c.cache, path)) ==> fresh(c.cache[path].listElement) && c.cache[path].listElement != nil && lmem[c.accessList][c.cache[path].listElement] && typeof(c.cache[path].listElement.Value) == typeid(string) && elemPath(c.cache[path].listElement) == path
+//@ ensures [h-path-alloc] allocated(c.cache[path].listElement)
+//@ ensures [h-path-elem] lmem[c.accessList][c.cache[path].listElement] && typeof(c.cache[path].listElement.Value) == typeid(string) && elemPath(c.cache[path].listElement) == path
+//@ ensures [h-others-same] forall(p, string, p != path && has(c.cache, p) ==> old(has(c.cache, p)) && c.cache[p] == old(c.cache[p]) && c.cache[p].listElement == old(c.cache[p].listElement) && c.cache[p].listElement.Value == old(c.cache[p].listElement.Value) && lmem[c.accessList][c.cache[p].listElement], c.cache[p])
+//@ ensures [h-members] forall(e, *list.Element, lmem[c.accessList][e] && e != c.cache[path].listElement ==> old(lmem[c.accessList][e]) && e.Value == old(e.Value) && has(c.cache, old(elemPath(e))) && elemPath(e) != path)
+//@ ensures [h-mb1] forall(e, *list.Element, lmem[c.accessList][e] && e != c.cache[path].listElement ==> c.cache[elemPath(e)] == old(c.cache[elemPath(e)]))
+//@ ensures [h-mb2] forall(e, *list.Element, lmem[c.accessList][e] && e != c.cache[path].listElement ==> old(c.cache[elemPath(e)].listElement) == e)
+//@ ensures [h-mb3] forall(e, *list.Element, lmem[c.accessList][e] && e != c.cache[path].listElement ==> c.cache[elemPath(e)].listElement == old(c.cache[elemPath(e)].listElement))
+//@ ensures [h-members-back] forall(e, *list.Element, lmem[c.accessList][e] && e != c.cache[path].listElement ==> c.cache[elemPath(e)].listElement == e)
+//@ ensures [inv-fwd] acFwd(c)
+//@ ensures [inv-back] acBack(c)
+//@ ensures [inv-count] acCount(c)
+//@ ensures [inv-neg] acNeg(c)
+//@ ensures [capacity] len(c.cache) <= c.maxSize
+//@ ensures [most-recent] forall(q, string, has(c.cache, q) && q != path ==> acRank(c, path) > acRank(c, q))
+// nothing but the least recently used entry is ever dropped, and only when a NEW key arrives at capacity
+//@ ensures [others-kept] old(has(c.cache, path)) || old(len(c.cache)) < c.maxSize ==> forall(q, string, q != path ==> has(c.cache, q) == old(has(c.cache, q)) && c.cache[q] == old(c.cache[q]))
+//@ ensures [lru-victim] !old(has(c.cache, path)) && old(len(c.cache)) >= c.maxSize ==> exists(v, string, old(has(c.cache, v)) && !has(c.cache, v) && forall(q, string, old(has(c.cache, q)) ==> old(acRank(c, v)) <= old(acRank(c, q))) && forall(q, string, q != path && q != v ==> has(c.cache, q) == old(has(c.cache, q)) && c.cache[q] == old(c.cache[q])))
+//@ ensures [caller-attrs-untouched] attrsEq(attrs, attrs) && attrs.Mode == old(attrs.Mode) && attrs.Size == old(attrs.Size)
+//@ ensures [unlocked] held(c.mu) == 0
+
+//@ func AttrCache.Clear
+//@ prop C21 C17
+//@ requires c != nil
+//@ modifies c.cache, c.accessList, lmem, lrank, llen, locks
+//@ ensures [empty] len(c.cache) == 0 && forall(q, string, !has(c.cache, q))
+//@ ensures [inv] c.maxSize > 0 ==> acInv(c)
+//@ ensures [unlocked] held(c.mu) == 0
+
+//@ func AttrCache.UpdateTTL
+//@ prop C21
+//@ requires c != nil
+//@ modifies c.ttl, locks
+//@ ensures [ttl] c.ttl == ite(newTTL <= 0, 5000000000, newTTL)
+//@ ensures [unlocked] held(c.mu) == 0
+
+//@ func AttrCache.Size
+//@ prop C21
+//@ requires c != nil
+//@ modifies locks
+//@ ensures result == len(c.cache) && held(c.mu) == 0
+
+//@ func AttrCache.MaxSize
+//@ prop C21
+//@ requires c != nil
+//@ modifies locks
+//@ ensures result == c.maxSize && held(c.mu) == 0
+
+// ---- NFSAttrs accessors (types.go)
+//@ func NFSAttrs.SetMtime
+//@ prop C21 C04
+//@ requires a != nil
+//@ modifies a.mtime
+//@ ensures a.mtime == t
+//@ func NFSAttrs.SetAtime
+//@ prop C21 C04
+//@ requires a != nil
+//@ modifies a.atime
+//@ ensures a.atime == t
+//@ func NFSAttrs.Mtime
+//@ prop C21 C04
+//@ requires a != nil
+//@ pure
+//@ ensures result == a.mtime
+//@ func NFSAttrs.Atime
+//@ prop C21 C04
+//@ requires a != nil
+//@ pure
+//@ ensures result == a.atime
+
+//@ func AttrCache.PutNegative
+//@ prop C21
+//@ requires acInv(c)
+//@ modifies mapof(c.cache), lmem, lrank, llen, CachedAttrs.listElement, clock, locks
+// no-op unless negative caching is enabled
+//@ ensures [disabled-noop] !c.enableNegative ==> mapsame(c.cache) && lmem == old(lmem) && llen == old(llen)
+//@ ensures [stored] c.enableNegative ==> has(c.cache, path) && c.cache[path] != nil && c.cache[path].isNegative && c.cache[path].attrs == nil && tsec(c.cache[path].expireAt) == clock + real(c.negativeTTL) / 1000000000.0
+//@ ensures [inv-shape] acShape(c) && c.accessList == old(c.accessList) && c.cache == old(c.cache)
+//@ ensures [h-existing] c.enableNegative && old(has(c.cache, path)) ==> c.cache[path].listElement == old(c.cache[path].listElement) && lmem == old(lmem) && llen == old(llen) && len(c.cache) == old(len(c.cache))
+//@ ensures [h-new] c.enableNegative && !old(has(c.cache, path)) ==> fresh(c.cache[path].listElement) && c.cache[path].listElement != nil && lmem[c.accessList][c.cache[path].listElement] && typeof(c.cache[path].listElement.Value) == typeid(string) && elemPath(c.cache[path].listElement) == path
+//@ ensures [h-path-alloc] c.enableNegative ==> allocated(c.cache[path].listElement)
+//@ ensures [h-path-elem] c.enableNegative ==> lmem[c.accessList][c.cache[path].listElement] && typeof(c.cache[path].listElement.Value) == typeid(string) && elemPath(c.cache[path].listElement) == path
+//@ ensures [h-others-same] c.enableNegative ==> forall(p, string, p != path && has(c.cache, p) ==> old(has(c.cache, p)) && c.cache[p] == old(c.cache[p]) && c.cache[p].listElement == old(c.cache[p].listElement) && c.cache[p].listElement.Value == old(c.cache[p].listElement.Value) && lmem[c.accessList][c.cache[p].listElement], c.cache[p])
+//@ ensures [h-members] c.enableNegative ==> forall(e, *list.Element, lmem[c.accessList][e] && e != c.cache[path].listElement ==> old(lmem[c.accessList][e]) && e.Value == old(e.Value) && has(c.cache, old(elemPath(e))) && elemPath(e) != path)
+//@ ensures [h-mb] c.enableNegative ==> forall(e, *list.Element, lmem[c.accessList][e] && e != c.cache[path].listElement ==> c.cache[elemPath(e)] == old(c.cache[elemPath(e)]) && old(c.cache[elemPath(e)].listElement) == e && c.cache[elemPath(e)].listElement == e)
+//@ ensures [inv-fwd] acFwd(c)
+//@ ensures [inv-back] acBack(c)
+//@ ensures [inv-count] acCount(c)
+//@ ensures [inv-neg] acNeg(c)
+//@ ensures [capacity] len(c.cache) <= c.maxSize
+//@ ensures [unlocked] held(c.mu) == 0
+
+//@ func AttrCache.Get
+//@ prop C21 C02
+//@ requires acInv(c)
+//@ requires len(server) > 0 ==> server[0] == nil || curTuning(server[0]) != nil
+//@ modifies mapof(c.cache), lmem, lrank, llen, CachedAttrs.listElement, clock, locks, fields(MetricsCollector), extstate
+// hit <=> present and not expired at the clock reading taken by the call (sequential semantics)
+//@ ensures [miss-absent] !old(has(c.cache, path)) ==> !result1 && result0 == nil
+//@ ensures [negative-hit] result1 && result0 == nil ==> old(has(c.cache, path)) && old(c.cache[path].isNegative)
+//@ ensures [positive-hit] result1 && result0 != nil ==> old(has(c.cache, path)) && !old(c.cache[path].isNegative) && old(c.cache[path].attrs) != nil && fresh(result0)
+//@ ensures [copy-mode] result1 && result0 != nil ==> result0.Mode == old(c.cache[path].attrs.Mode) && result0.Size == old(c.cache[path].attrs.Size) && result0.FileId == old(c.cache[path].attrs.FileId)
+//@ ensures [copy-ids] result1 && result0 != nil ==> result0.Uid == old(c.cache[path].attrs.Uid) && result0.Gid == old(c.cache[path].attrs.Gid)
+//@ ensures [copy-times] result1 && result0 != nil ==> result0.mtime == old(c.cache[path].attrs.mtime) && result0.atime == old(c.cache[path].attrs.atime)
+//@ ensures [hit-not-expired] result1 ==> old(has(c.cache, path)) && old(clock) < tsec(old(c.cache[path].expireAt))
+//@ ensures [miss-means-absent-or-expired] !result1 ==> result0 == nil && (!old(has(c.cache, path)) || tsec(old(c.cache[path].expireAt)) <= clock)
+//@ ensures [clock] clock >= old(clock)
+//@ ensures [inv-shape] acShape(c) && c.accessList == old(c.accessList) && c.cache == old(c.cache)
+//@ ensures [inv-fwd] acFwd(c)
+//@ ensures [inv-back] acBack(c)
+//@ ensures [inv-count] acCount(c)
+//@ ensures [inv-neg] acNeg(c) && len(c.cache) <= c.maxSize
+//@ ensures [unlocked] held(c.mu) == 0
+
+//@ func AttrCache.Resize
+//@ prop C21
+//@ requires acInv(c)
+//@ modifies c.maxSize, mapof(c.cache), lmem, llen, locks
+//@ ensures [size] c.maxSize == ite(newSize <= 0, 10000, newSize)
+//@ ensures [capacity] len(c.cache) <= c.maxSize
+//@ ensures [inv-shape] acShape(c)
+//@ ensures [inv-fwd] acFwd(c)
+//@ ensures [inv-back] acBack(c)
+//@ ensures [inv-count] acCount(c)
+//@ ensures [survivors-unchanged] forall(q, string, has(c.cache, q) ==> old(has(c.cache, q)) && c.cache[q] == old(c.cache[q]), c.cache[q])
+//@ ensures [unlocked] held(c.mu) == 0
+//@ loop 1 invariant c != nil && held(c.mu) == -1 && c.cache == old(c.cache) && c.accessList == old(c.accessList) && c.maxSize > 0 && c.maxSize == newSize && newSize == ite(entry_newSize <= 0, 10000, entry_newSize)
+//@ loop 1 invariant acShape(c) && acFwd(c) && acBack(c) && acCount(c)
+//@ loop 1 invariant forall(q, string, has(c.cache, q) ==> old(has(c.cache, q)) && c.cache[q] == old(c.cache[q]), c.cache[q])
+
+// direct child, from the property: p is d joined with exactly one non-empty component
+//@ specdef isChildSpec(p string, d string) bool = ite(d == "/", len(p) >= 2 && p[0] == '/' && forall(i, 1, len(p), p[i] != '/'), len(p) > len(d) + 1 && forall(i, 0, len(d), p[i] == d[i]) && p[len(d)] == '/' && forall(i, len(d) + 1, len(p), p[i] != '/'))
+
+// A-PUREFN: isChildOf is a deterministic function of two immutable strings (its contract is 'pure');
+// childFn names its graph, and the axiom below is its proved postcondition [direct-children-only]
+// restated for all arguments.
+//@ specfun childFn(p string, d string) bool
+//@ axiom [childFn-def] forall(p, string, forall(d, string, (len(p) > 0 ==> p[0] == '/') ==> (childFn(p, d) <==> isChildSpec(p, d))))
+
+//@ func isChildOf
+//@ prop C21 C02
+//@ pure
+//@ free ensures [graph] result == childFn(path, dirPath)
+//@ ensures [direct-children-only] (len(path) > 0 ==> path[0] == '/') ==> (result <==> isChildSpec(path, dirPath))
+//@ loop 1 invariant 0 <= i && i <= len(remainder) && forall(k, 0, i, remainder[k] != '/')
+//@ loop 1 invariant dirPath == "/" ==> forall(k, 1, 1 + i, path[k] != '/')
+//@ loop 1 invariant dirPath != "/" ==> forall(k, len(dirPath) + 1, len(dirPath) + 1 + i, path[k] != '/')
+//@ loop 1 invariant dirPath == "/" ==> len(path) >= 2 && len(remainder) == len(path) - 1 && forall(k, 0, len(remainder), remainder[k] == path[k + 1], remainder[k])
+//@ loop 1 invariant dirPath != "/" ==> len(path) > len(dirPath) + 1 && forall(k, 0, len(dirPath), path[k] == dirPath[k]) && path[len(dirPath)] == '/' && len(remainder) == len(path) - len(dirPath) - 1 && forall(k, 0, len(remainder), remainder[k] == path[k + len(dirPath) + 1], remainder[k])
+
+//@ func AttrCache.ConfigureNegativeCaching
+//@ prop C21
+//@ requires acInv(c)
+//@ modifies c.enableNegative, c.negativeTTL, mapof(c.cache), lmem, llen, CachedAttrs.listElement, locks
+//@ ensures [flag] c.enableNegative == enable && c.negativeTTL == ite(ttl > 0, ttl, old(c.negativeTTL))
+// negative entries exist only while negative caching is enabled
+//@ ensures [no-neg-when-disabled] !enable ==> forall(q, string, has(c.cache, q) ==> !c.cache[q].isNegative, c.cache[q])
+//@ ensures [positives-kept] forall(q, string, old(has(c.cache, q)) && !old(c.cache[q].isNegative) ==> has(c.cache, q) && c.cache[q] == old(c.cache[q]), c.cache[q])
+//@ ensures [enabled-noop] enable ==> mapsame(c.cache) && lmem == old(lmem) && llen == old(llen)
+//@ ensures [inv-shape] acShape(c) && c.cache == old(c.cache) && c.accessList == old(c.accessList)
+//@ ensures [inv-fwd] acFwd(c)
+//@ ensures [inv-back] acBack(c)
+//@ ensures [inv-count] acCount(c)
+//@ ensures [inv-neg] acNeg(c) && len(c.cache) <= c.maxSize
+//@ ensures [unlocked] held(c.mu) == 0
+//@ loop 1 invariant c != nil && held(c.mu) == -1 && c.cache == old(c.cache) && c.accessList == old(c.accessList) && c.maxSize == old(c.maxSize) && !enable
+//@ loop 1 invariant acShape(c) && acFwd(c) && acBack(c) && acCount(c) && acNeg(c) && len(c.cache) <= c.maxSize
+//@ loop 1 invariant forall(k, string, visited[k] && has(c.cache, k) ==> !c.cache[k].isNegative, c.cache[k])
+//@ loop 1 invariant forall(q, string, has(c.cache, q) ==> old(has(c.cache, q)) && c.cache[q] == old(c.cache[q]), c.cache[q])
+//@ loop 1 invariant forall(q, string, old(has(c.cache, q)) && !old(c.cache[q].isNegative) ==> has(c.cache, q), c.cache[q])
+//@ loop 1 invariant forall(x, *CachedAttrs, x.isNegative == old(x.isNegative) && x.attrs == old(x.attrs), x.isNegative)
+
+//@ func AttrCache.InvalidateNegativeInDir
+//@ prop C21 C02
+//@ requires acInv(c)
+//@ modifies mapof(c.cache), lmem, llen, CachedAttrs.listElement, locks
+// removes only negative entries that are direct children of dirPath ...
+//@ ensures [only-negative-children] forall(q, string, old(has(c.cache, q)) && !has(c.cache, q) ==> old(c.cache[q].isNegative) && childFn(q, dirPath), c.cache[q])
+//@ ensures [survivors-unchanged] forall(q, string, has(c.cache, q) ==> old(has(c.cache, q)) && c.cache[q] == old(c.cache[q]), c.cache[q])
+// (the converse - every negative direct child IS removed - needs an existential re-indexing argument over the
+//  collected slice that the solvers do not close within budget; it is not claimed)
+//@ ensures [inv-shape] acShape(c) && c.cache == old(c.cache) && c.accessList == old(c.accessList)
+//@ ensures [inv-fwd] acFwd(c)
+//@ ensures [inv-back] acBack(c)
+//@ ensures [inv-count] acCount(c)
+//@ ensures [inv-neg] acNeg(c) && len(c.cache) <= c.maxSize
+//@ ensures [unlocked] held(c.mu) == 0
+// loop 1 collects: everything collected is a negative child; every visited negative child is collected
+//@ loop 1 invariant c != nil && held(c.mu) == -1 && c.cache == old(c.cache) && c.accessList == old(c.accessList) && mapsame(c.cache) && lmem == old(lmem) && llen == old(llen) && len(toDelete) >= 0 && fresh(toDelete)
+//@ loop 1 invariant forall(x, *CachedAttrs, x.isNegative == old(x.isNegative) && x.listElement == old(x.listElement) && x.attrs == old(x.attrs), x.isNegative)
+//@ loop 1 invariant forall(a, off(toDelete), off(toDelete) + len(toDelete), has(c.cache, absidx(toDelete, a)) && c.cache[absidx(toDelete, a)].isNegative && childFn(absidx(toDelete, a), dirPath), absidx(toDelete, a))
+// loop 2 deletes what was collected
+//@ loop 2 invariant c != nil && held(c.mu) == -1 && c.cache == old(c.cache) && c.accessList == old(c.accessList) && 0 <= rangeindex + 1 && rangeindex + 1 <= len(toDelete) && fresh(toDelete)
+//@ loop 2 invariant acShape(c) && acFwd(c) && acBack(c) && acCount(c) && acNeg(c) && len(c.cache) <= c.maxSize
+//@ loop 2 invariant forall(q, string, has(c.cache, q) ==> old(has(c.cache, q)) && c.cache[q] == old(c.cache[q]), c.cache[q])
+//@ loop 2 invariant forall(x, *CachedAttrs, x.isNegative == old(x.isNegative) && x.attrs == old(x.attrs), x.isNegative)
+//@ loop 2 invariant forall(a, off(toDelete), off(toDelete) + len(toDelete), oldhas(c.cache, absidx(toDelete, a)) && oldidx(c.cache, absidx(toDelete, a)).isNegative && childFn(absidx(toDelete, a), dirPath), absidx(toDelete, a))
+//@ loop 2 invariant forall(q, string, old(has(c.cache, q)) && !has(c.cache, q) ==> exists(a, off(toDelete), off(toDelete) + rangeindex + 1, absidx(toDelete, a) == q, absidx(toDelete, a)), c.cache[q])
+//@ loop 2 invariant forall(a, off(toDelete), off(toDelete) + rangeindex + 1, !has(c.cache, absidx(toDelete, a)), absidx(toDelete, a))
